@@ -647,7 +647,15 @@ class GroupBy:
 
         # validate before the timestamps are converted, which drops the pandas index
         to_check = list(value_list)
-        if mask is not None and pd.api.types.is_bool_dtype(mask):
+        if mask is not None and (
+            pd.api.types.is_bool_dtype(mask)
+            # boolean masks in containers that pandas does not recognise
+            or (isinstance(mask, pl.Series) and mask.dtype == pl.Boolean)
+            or (
+                isinstance(mask, (pa.Array, pa.ChunkedArray))
+                and pa.types.is_boolean(mask.type)
+            )
+        ):
             to_check = [*to_check, mask]
 
         common_index = _validate_input_lengths_and_indexes(to_check)
@@ -1452,6 +1460,11 @@ class GroupBy:
             mask = np.asarray(mask)
             if not mask.dtype.kind == "b":
                 raise TypeError("mask must be a boolean array")
+            if len(mask) != len(self):
+                # list / polars / arrow masks are not covered by the validation of the pandas arguments
+                raise ValueError(
+                    f"Length of mask ({len(mask)}) does not match length of group keys ({len(self)})"
+                )
             mask_split = np.array_split(mask[indexer], splits)
 
         def split_one_array(arr):
